@@ -201,13 +201,15 @@ let kvhist (type v) (cfg : v cfg) (rn : v runner) (vacuum_prog : (z list -> v ha
       | "F" -> plan := !plan @ [ rd_fault () ]; any_fault := true; opname ()
       | s -> s in
     match opname () with
-    | "open" ->
+    | ("open" | "openbf") as okind ->
         let h = rd_int () in let ro = rd_bool () in let w = rd_z () in let _seed = rd_z () in
+        (* openbf: this client configures another branch factor (applies to tables without versions) *)
+        let ocfg = if okind = "openbf" then { cfg with c_bf = rd_z () } else cfg in
         let only = (let n = rd_int () in
                     if n < 0 then None
                     else Some (Stdlib.List.init n (fun _ -> rd_vname ()))) in
         let order = rd_vnames () in let corder = rd_vnames () in
-        let (r, tr) = exec (open0 cfg ro only w order corder) in
+        let (r, tr) = exec (open0 ocfg ro only w order corder) in
         (match r with
          | Done hd -> pr "ok"; seth h hd; conflicts := Z.add !conflicts hd.h_conf
          | Failed e when e = z_of_small 99 -> pr "panic"
@@ -849,7 +851,7 @@ let run_case (fn : string) : unit =
        | "rows" ->
            kvhist (cfg_rows bf) { runp = run_rows } (Some (fun corder h before -> kv_vacuum (cfg_rows bf) corder h before)) rd_row
              (fun t v -> match v with None -> pr "_" | Some r -> pr "S"; pr_absrow t r)
-       | "plain" | "cb" ->
+       | "plain" | "cb" | "json" ->
            kvhist (cfg_plain (z_of_small (if mode = "cb" then 2 else 0)) bf) { runp = run_plain } None rd_z
              (fun _ v -> pr_opt pr_z v)
        | _ -> failwith "bad_mode")
